@@ -62,7 +62,44 @@ def check_file(run, segs, label):
                       {"op": "read", "hex": data.hex(), "desc": R.describe_segs(segs)},
                       expected="reference meaning of the file syntax",
                       actual=repr(ex)[:300] if ex else R.first_diff(impl, expected))
+    if not failed:
+        stream_kinds(run, segs, data, expected)
     return data, impl, failed, nontrivial
+
+
+_GZ_DIR = None
+
+
+def stream_kinds(run, segs, data, expected):
+    """the content read must not depend on the kind of stream the bytes come from: a caller-supplied stream that
+    delivers short readinto results, a gzip stream (whose fileno() is that of the compressed file), a path"""
+    global _GZ_DIR
+    import gzip, os, tempfile
+    k = run.cov["evaluations"]
+    kinds = [("short_readinto", lambda: G.ShortReadintoStream(data, 1 + k % 7))]
+    if k % 3 == 0:
+        if _GZ_DIR is None:
+            _GZ_DIR = tempfile.mkdtemp(prefix="streams_", dir=str(H.workdir("C01")))
+        gz = os.path.join(_GZ_DIR, "f.tdms.gz")
+        with gzip.open(gz, "wb") as fh:
+            fh.write(data)
+        kinds.append(("gzip", lambda: gzip.open(gz, "rb")))
+        plain = os.path.join(_GZ_DIR, "f.tdms")
+        with open(plain, "wb") as fh:
+            fh.write(data)
+        kinds.append(("binary_file", lambda: open(plain, "rb")))
+    for name, make in kinds:
+        got, ex = G.read_eager_from(make)
+        run.cov["evaluations"] += 0
+        run.count("stream_" + name)
+        if got != expected:
+            run.violation("stream-%s-%s" % (name, R.exc_kind(ex) or "content"),
+                          "TdmsFile.read of the same bytes through a %s stream differs from the encoded content: %s"
+                          % (name, str(ex)[:200] if ex else R.first_diff(got, expected)),
+                          {"op": "read_stream", "stream": name, "limit": 1 + k % 7, "hex": data.hex(),
+                           "desc": R.describe_segs(segs)},
+                          expected="reference meaning of the file syntax",
+                          actual=repr(ex)[:300] if ex else R.first_diff(got, expected))
 
 
 def mutate(rng, data):
@@ -126,6 +163,25 @@ def main():
         import json
         case = json.load(open(run.replay))["case"]
         data = bytes.fromhex(case["hex"])
+        if case.get("op") == "read_stream":
+            # the same bytes through the recorded kind of stream against the BytesIO read
+            import gzip, os
+            base, bex = G.read_eager(data)
+            kind = case.get("stream")
+            if kind == "short_readinto":
+                make = lambda: G.ShortReadintoStream(data, int(case.get("limit", 3)))
+            else:
+                path = os.path.join(str(H.workdir("C01")), "replay.tdms" + (".gz" if kind == "gzip" else ""))
+                with (gzip.open(path, "wb") if kind == "gzip" else open(path, "wb")) as fh:
+                    fh.write(data)
+                make = (lambda: gzip.open(path, "rb")) if kind == "gzip" else (lambda: open(path, "rb"))
+            got, ex = G.read_eager_from(make)
+            run.cov["evaluations"] += 1
+            if got != base:
+                run.violation("replay-stream-%s" % kind, "the %s stream still reads differently from BytesIO: %s"
+                              % (kind, str(ex)[:200] if ex else R.first_diff(got, base)), case,
+                              actual=repr(ex)[:300] if ex else R.first_diff(got, base))
+            run.finish()
         impl, ex = G.read_eager(data)
         exp = case.get("expected_tokens")
         R.run_agree_all(run, [R.case_all(data, impl)], [{"data": data, "impl": R.exc_kind(ex)}], "replay", "replay")
